@@ -102,6 +102,9 @@ func c16GenSRVAns(t *rapid.T, label string) c16SRVAns {
 			Weight: rapid.SampledFrom([]int{0, 5, 10}).Draw(t, "weight"),
 		})
 	}
+	if rapid.IntRange(0, 9).Draw(t, label+"Mixed") == 0 {
+		a.Kind = "mixed"
+	}
 	return a
 }
 
@@ -525,7 +528,7 @@ func c16WKGen(t *rapid.T) c16WKCase {
 	default:
 		c.CCKind = rapid.SampledFrom(c16Keys(c16CCUnjudged)).Draw(t, "ccUnjudged")
 	}
-	c.MaxAge = rapid.SampledFrom([]int64{0, 1, 60, 3600, 86400, 31536000, 1000000000}).Draw(t, "maxAge")
+	c.MaxAge = rapid.SampledFrom([]int64{0, 1, 60, 3600, 86400, 31536000, 1000000000, 9223372036, 9223372037, 31536000000, 315360000000, 4000000000000}).Draw(t, "maxAge") // (also beyond what a time.Duration holds in seconds)
 	c.ExpKind = rapid.SampledFrom([]string{"none", "none", "imf", "imf", "imf", "zero", "minus1", "garbage", "rfc850", "asctime"}).Draw(t, "expKind")
 	c.ExpUnix = rapid.SampledFrom([]int64{0, 1, 784111777, 1700000000, 1800000000, 1900000000, 2147483647, 2147483648, 4102444800}).Draw(t, "expUnix")
 	return c
